@@ -29,6 +29,7 @@ type tierSpec struct {
 	Real       bool           `json:"real"`
 	MapOrders  bool           `json:"maporders"`
 	SelectChoice bool         `json:"selectchoice"`
+	EnvLazy    bool           `json:"envlazy"`
 	Skip       bool           `json:"skip"`
 	Witnesses  int            `json:"witness_replays"`
 }
@@ -506,6 +507,7 @@ func runCheck(prop, tier string, seed int, repoDir string, spec propSpec, outDir
 		cfg.RealFloats = ts.Real
 		cfg.MapOrders = ts.MapOrders
 		cfg.SelectChoice = ts.SelectChoice
+		cfg.EnvLazy = ts.EnvLazy
 		e.cfg = cfg
 		e.params = ts.Params
 		e.wantModels = true
